@@ -154,4 +154,59 @@ func init() {
 		"recursive enumeration of change-set sequences; distinct = distinct (threshold, sequence)",
 		[]Stage{en("c17manifest", 16, 90, prm("depth", 3, "fault_depth", 2))},
 		[]Stage{en("c17manifest", 16, 900, prm("depth", 4, "fault_depth", 3))})
+
+	crashPlan := func(text, note string, quick, thorough []Stage) func(q bool) *Plan {
+		return func(q bool) *Plan {
+			p := &Plan{Level: "fault_enumeration", Engine: "E-crash", Text: text, Note: note,
+				Technique: "exhaustive crash-point enumeration: the history runs once under the controlled scheduler with every persistence step as a point; an image per step is recovered with the production Open and compared with the reference model",
+				Rule:      "histories = all sequences of the given length over the operation alphabet plus scripted ones; crash points = every y.VerifIO step (file create, mmap write, msync/fsync, truncate, rename, unlink, dirsync, manifest append) of every history; distinct = distinct images (file set + contents + acknowledged-count)",
+				Assume:    []string{"persistence steps are those hooked by y.VerifIO (grep-audited list in DESIGN.md §2.1); multi-syscall steps inside ristretto's MmapFile are modelled by synthesized intermediate images", "sequential histories", "virtual time"}}
+			if q {
+				p.Stages = quick
+			} else {
+				p.Stages = thorough
+			}
+			return p
+		}
+	}
+	planTable["C08"] = crashPlan("Every persistence step of every history is a crash point with the page cache surviving: the image must Open, show a commit-order prefix containing every acknowledged operation, no partial transaction, and be stable under a second close/re-open.",
+		"Histories are sequential (one client thread plus badger's own writer/flusher goroutines).",
+		[]Stage{en("crash08", 16, 80, prm("oracle", "c08", "len", 4, "alphabet", "T2 TV TD WB F C R"))},
+		[]Stage{en("crash08", 16, 900, prm("oracle", "c08", "len", 5, "alphabet", "T2 TV TD WB F C R GC"))})
+	planTable["C09"] = crashPlan("For every write step (WAL and value-log mmap writes, MANIFEST appends) of every history, the written file is torn at EVERY byte offset of the bytes that step changed (remainder as before the step: zeros in the pre-allocated mmap logs; for the MANIFEST both cut short and zero-filled to the new length), all other files as before the step; plain and encrypted. Each image must Open and show a commit-order prefix containing every acknowledged operation, the in-flight transaction present as a whole or not at all.",
+		"Torn states are derived from consecutive quiescent snapshots around each write step, so every other file is consistent with the moment of the tear.",
+		[]Stage{en("crash09", 16, 40, prm("oracle", "c08", "len", 2, "alphabet", "T2 TV WB F C")), en("crash09", 16, 60, prm("oracle", "c08", "len", 3, "alphabet", "T2 TV WB F C", "max_per_step", 24)), en("crash09", 16, 40, prm("oracle", "c08", "len", 2, "alphabet", "TV WB F", "encrypt", true, "max_per_step", 64))},
+		[]Stage{en("crash09", 16, 900, prm("oracle", "c08", "len", 4, "alphabet", "T2 TV TD WB F C R")), en("crash09", 16, 600, prm("oracle", "c08", "len", 3, "alphabet", "T2 TV WB F C", "encrypt", true))})
+	planTable["C10"] = crashPlan("SyncWrites on. For every persistence step of every history the power-loss image is constructed from the event log (file contents as of the last completed msync/fsync/O_DSYNC write of that inode, directory entries as of the last completed directory fsync) and recovered: it must Open and contain every acknowledged operation as a commit-order prefix.",
+		"Power-loss model: only explicitly synced contents and directory entries survive; file sizes travel with the directory entry; everything present when Open returned is taken as durable.",
+		[]Stage{en("crash10", 16, 80, prm("oracle", "c08", "sync_writes", true, "len", 4, "alphabet", "T2 TV TD WB F C R"))},
+		[]Stage{en("crash10", 16, 900, prm("oracle", "c08", "sync_writes", true, "len", 5, "alphabet", "T2 TV TD WB F C R GC"))})
+
+	planTable["C11"] = crashPlan("After every recovery of every crash image (page-cache images at every persistence step, including clean close/re-open steps inside the histories) the maximum stored version is dumped (all versions, internal keys, and the memtable max version), then a new transaction writes every key: each new Item.Version must exceed that maximum and reads must return the new values.",
+		"Piggy-backs on the C08 image enumeration; re-opens after Load / StreamWriter / DropAll are covered by the C24/C26/C29 checks' own post-conditions.",
+		[]Stage{en("crash08", 16, 80, prm("oracle", "c11", "len", 4, "alphabet", "T2 TD WB F C R DA"))},
+		[]Stage{en("crash08", 16, 900, prm("oracle", "c11", "len", 5, "alphabet", "T2 TV TD WB F C R DA DP"))})
+
+	planTable["C02"] = func(q bool) *Plan {
+		p := &Plan{Level: "model_checking", Engine: "E-sched",
+			Text:      "All 55 unordered pairs of 10 transaction programs over keys x,y (blind writes, read-modify-write, cross reads, read-only, reads through Get, iterator Item and Seek) and 12 triples with a long-running reader-writer are run under every interleaving up to the preemption bound; per execution: Commit returns ErrConflict IFF a transaction with commitTs > readTs, checked earlier, wrote a key it read (no missed and no spurious conflicts); rejected writes invisible; the committed history replayed serially in commit-ts order reproduces every committed transaction's reads. Managed mode: all orders of up to 3 CommitAt transactions with non-monotonic timestamps between a transaction's read and its commit.",
+			Note:      "Key fingerprints of x and y asserted distinct; points: before each API call, after the conflict check/timestamp allocation, before doneCommit.",
+			Technique: "stateless model checking (controlled scheduler, preemption-bounded DFS) plus exhaustive enumeration of managed-mode histories",
+			Rule:      "schedules of each pair/triple up to the bound; distinct = distinct (verdict, commit order) outcomes per case"}
+		if q {
+			p.Stages = []Stage{
+				sched("c02pair", 2, 16, 40, prm("cases", 55)),
+				sched("c02triple", 2, 12, 40, prm("cases", 12)),
+				en("c02managed", 4, 30, nil),
+			}
+		} else {
+			p.Stages = []Stage{
+				sched("c02pair", 2, 16, 300, prm("cases", 55)),
+				sched("c02pair", 3, 16, 600, prm("cases", 55)),
+				sched("c02triple", 2, 12, 600, prm("cases", 12)),
+				en("c02managed", 4, 60, nil),
+			}
+		}
+		return p
+	}
 }
